@@ -60,6 +60,13 @@ CHECKS = {
             'independent count over ast.parse(source), two-directional (fires iff), plus returned-node and reported-line checks.',
             'ast.walk counts are the reference; interval oracle where the statement leaves a choice (unary +/-, augmented '
             'assignment, chained comparisons, f-string pieces).', '3/C08'),
+    'C12': ('Hypothesis-generated submissions (valid programs, character-level edits from a structure-biased alphabet, '
+            'arbitrary unicode, blank text, tab/space mixes; whole file, inside a section, after an earlier verify) judged '
+            'differentially against ast.parse; thorough adds a coverage-guided Atheris/libFuzzer campaign on the same judge',
+            'About 10k texts per quick run (420k + 300k fuzzer executions thorough); two-directional oracle on presence, '
+            'whole-file line, stored tree and blank detection.',
+            'ast.parse of the same interpreter is the reference; texts on which the parser itself hits RecursionError/'
+            'MemoryError are skipped.', '3/C12'),
 }
 
 NOT_YET = {}
